@@ -513,31 +513,30 @@ theorem unanswered_after_loop_exit (a : Nat) : (Sess.mk false a).unanswered = a 
 
 theorem facts_initial : Facts.C13.initialConcurrent = 20 ∧ Facts.C13.outgoingInitial = 50 := by
   decide
-/-- the shape of `Concurrency` the model mirrors: acquire first, then retarget; refusal test
-`_target <= 0`; growth loop `_sem_value < _target` doing `+= 1; release()`; `__aexit__` retires
-(`-= 1`) when `_sem_value > _target`, otherwise releases; `set_target` only stores the value. -/
+/-- the shape of `Concurrency` the model mirrors (per-path symbolic normal forms, `a0` = the
+argument): `__aenter__` acquires first, then retargets; refusal test `_target <= 0`; growth loop
+`_sem_value < _target` doing `+= 1; release()`; `__aexit__` retires (`-= 1`) when
+`_sem_value > _target`, otherwise releases; `set_target` only stores the value. -/
 theorem facts_shape :
-    Facts.C13.aenterCalls = ["acquire", "_retarget_semaphore"] ∧
+    Facts.C13.aenterPaths = ["when always: do _semaphore.acquire(); do _retarget_semaphore()"] ∧
     Facts.C13.refuseTest = "_target LtE 0" ∧
     Facts.C13.refuseRaises = "ExcessiveSessionCostError" ∧
+    Facts.C13.retargetShape = ["If", "While"] ∧
     Facts.C13.growTest = "_sem_value Lt _target" ∧
     Facts.C13.growBody = ["_sem_value += 1", "release"] ∧
-    Facts.C13.aexitTest = "_sem_value Gt _target" ∧
-    Facts.C13.aexitThen = ["_sem_value -= 1"] ∧
-    Facts.C13.aexitElse = ["release"] ∧
-    Facts.C13.setTargetBody = ["_target = int(target)"] ∧
-    Facts.C13.maxConcurrentBody = ["return _target"] ∧
-    Facts.C13.retargetShape = ["If", "While"] ∧
-    Facts.C13.initBody = ["_sem_value = _target", "_semaphore = asyncio.Semaphore(_target)",
-      "_target = int(target)"] := by
-  decide
+    Facts.C13.aexitPaths = ["when _sem_value Gt _target: _sem_value := _sem_value - 1",
+                            "when _sem_value LtE _target: do _semaphore.release()"] ∧
+    Facts.C13.setTargetPaths = ["when always: _target := int(a0)"] ∧
+    Facts.C13.maxConcurrentPaths = ["when always: ; return _target"] ∧
+    Facts.C13.initPaths = ["when always: _sem_value := int(a0); _semaphore := asyncio.Semaphore(int(a0)); _target := int(a0)"] :=
+  ⟨rfl, rfl, rfl, rfl, rfl, rfl, rfl, rfl, rfl, rfl⟩
 /-- the handler runs inside `async with self._incoming_concurrency` in both session classes, and
 the count formula is `max(0, len(_pending) - 1)` -/
 theorem facts_session :
     Facts.C13.throttledRequestGuard = "_incoming_concurrency" ∧
     Facts.C13.throttledMessageGuard = "_incoming_concurrency" ∧
-    Facts.C13.unansweredFormula = "max(0, len(_group._pending) - 1)" := by
-  decide
+    Facts.C13.unansweredPaths = ["when always: ; return max(0, len(_group._pending) - 1)"] :=
+  ⟨rfl, rfl, rfl⟩
 
 /-! ## non-vacuity -/
 
